@@ -82,6 +82,8 @@ def run(ctx, rep):
     # ---- Q3
     _q3(ctx, rep)
     _q4(ctx, rep)
+    rep.rule("Q7", "EffectiveLindbladian.is_tp compares the WHOLE first row of the HS matrix with zero (entry (0,0) included)", floor=1)
+    _q7(ctx, rep)
     rep.rule("Q6", "calc_h_mat: the Hamiltonian coefficients are i/(2d) x Tr[L (B (x) I - I (x) conj B)]: the normalisation is 2d for every "
                    "dimension d", floor=1)
     _q6(ctx, rep)
@@ -299,6 +301,24 @@ def _table_element(ctx, table: str):
     if t.elem_order != "C":
         return None, "appended element is flattened in %s order" % t.elem_order
     return (t.elem, tuple(t.rows), t.offset), None
+
+
+def _q7(ctx, rep):
+    f = ctx.ix.func("quara.objects.effective_lindbladian.EffectiveLindbladian.is_tp")
+    from ..astutil import deep_inline
+    calls = [n for n in own_nodes(f.node) if isinstance(n, ast.Call) and (dotted(n.func) or "").split(".")[-1] in ("allclose", "isclose") and n.args]
+    if len(calls) != 1:
+        rep.undecided("Q7", f, "first row", "expected one closeness comparison")
+        return
+    a = deep_inline(f, calls[0].args[0])
+    row = isinstance(a, ast.Subscript) and unparse(a.value) in ("self.hs", "self._hs") and is_num(a.slice, 0)
+    if row:
+        rep.holds("Q7", f, "first row", "np.allclose(self.hs[0], 0, ...)", node=calls[0])
+    elif isinstance(a, ast.Subscript) and "hs" in unparse(a):
+        rep.violation("Q7", f, "first row", "the trace-preservation test looks at %s, not at the whole first row self.hs[0]: a generator whose defect sits in "
+                                            "the entries left out is judged trace preserving" % unparse(a), node=calls[0])
+    else:
+        rep.undecided("Q7", f, "first row", "compared quantity %s not recognised" % unparse(a))
 
 
 def _q6(ctx, rep):
